@@ -231,10 +231,11 @@ func (p *proc) do(rq request, cpuLimit float64) (reply, *failure) {
 				}
 				// ask the Go runtime for a goroutine dump first (it names the
 				// function the worker is stuck in), then make sure it is dead
-				_ = p.cmd.Process.Signal(syscall.SIGQUIT)
-				select {
-				case <-p.exited:
-				case <-time.After(10 * time.Second):
+				_ = p.cmd.Process.Signal(syscall.SIGUSR1)
+				for t0 := time.Now(); time.Since(t0) < 15*time.Second; time.Sleep(200 * time.Millisecond) {
+					if strings.Contains(p.stderr.String(), dumpEnd) {
+						break
+					}
 				}
 				p.kill()
 				return reply{}, &failure{wedged: true, stderr: p.stderr.String(), last: last, partial: partial}
